@@ -260,6 +260,30 @@ func checkC12(c *Ctx) {
 			}
 		}
 	}
+	// armored sessions over 1..8 recipients x small plaintexts: the header, the nonce and the chunk reach the armor
+	// writer at every offset relative to its 48-byte lines and 3-byte groups, in writes of every residue
+	for nr := 1; nr <= 8; nr++ {
+		var many []*party
+		for k := 0; k < nr; k++ {
+			many = append(many, x25519Party(c.rng.bytes(32)))
+		}
+		for _, n := range []int{0, 1, 16, 31, 32, 33, 80, 128} {
+			if !c.thorough() && (nr+n)%2 == 1 {
+				continue
+			}
+			plain := c.rng.bytes(n)
+			tape := c.rng.bytes(16 + 32*nr + 16 + 8)
+			for si, ws := range [][][]byte{{plain}, {plain[:n/2], plain[n/2:]}} {
+				r := runSession(many, tape, ws, nil, true)
+				in := map[string]interface{}{"recipients": nr, "plain_len": n, "writes": len(ws), "armored": true}
+				c.Compare("Encrypt/Write*/Close~Age.encrypt_session", in, r.sx(true), c.modelSession(many, tape, ws, nil, true))
+				_, out, oc := decryptImpl(bytes.NewReader(r.sink.acc), true, []age.Identity{many[nr-1].id})
+				c.Oracle("written-file-decrypts-to-its-plaintext", bytes.Equal(out, plain) && oc == ":eof", "armored-session-unreadable", in, "an armored file written through the session does not decrypt to its plaintext (outcome "+oc+")")
+				c.note(fmt.Sprintf("aw:%d:%d:%d", nr, n, si), true)
+				c.count("armored-session-recipients")
+			}
+		}
+	}
 	// io.Copy into the encrypting writer (what cmd/age does; would use a ReaderFrom fast path if one existed)
 	for _, n := range []int{0, 100, chunkSize, 2 * chunkSize, chunkSize + 1} {
 		plain := c.rng.bytes(n)
@@ -279,6 +303,30 @@ func checkC12(c *Ctx) {
 		c.Oracle("output-independent-of-write-segmentation", err == nil && bytes.Equal(buf.Bytes(), ref.sink.acc), "write-segmentation", in, "io.Copy into the encrypting writer produces a different file than one Write")
 		c.note(fmt.Sprint("copy:", n), true)
 		c.count("write-io.Copy")
+		// the decrypting side: every way of consuming the reader gives the plaintext — Read only, io.Copy only,
+		// and a few bytes with Read followed by io.Copy (a caller that sniffs the content type first)
+		if err == nil {
+			for _, first := range []int{0, 1, 512, chunkSize} {
+				r, derr := age.Decrypt(bytes.NewReader(buf.Bytes()), pty.id)
+				var got []byte
+				if derr == nil && first > 0 {
+					head := make([]byte, first)
+					k, e := io.ReadFull(r, head)
+					got = append(got, head[:k]...)
+					if e != nil && e != io.EOF && e != io.ErrUnexpectedEOF {
+						derr = e
+					}
+				}
+				if derr == nil {
+					var w onlyWriter
+					_, derr = io.Copy(&w, r)
+					got = append(got, w.b...)
+				}
+				c.Oracle("plaintext-independent-of-how-it-is-read", derr == nil && bytes.Equal(got, plain), "read-mode-dependence", map[string]interface{}{"plain_len": n, "read_first": first},
+					fmt.Sprintf("Read(%d) followed by io.Copy released %d of %d plaintext bytes (err %v)", first, len(got), len(plain), derr))
+				c.count("read-then-copy")
+			}
+		}
 	}
 	// de-armoring damaged armor under different delivery schedules
 	{
